@@ -919,6 +919,7 @@ Definition cbe_form (e : event) : list event :=
   | EArray t n d => cbe_array_form t n d
   | EStringArray t d => cbe_array_form t (Iterate.len d) d
   | EMedia mt d => EMediaBegin mt :: EArrayChunk (Iterate.len d) false :: (if is_nil d then [] else [EArrayData d])
+  | ETime s => if bytes_eqb s zero_ctime_text then [ENull] else [e]    (* encoder: value.IsZeroValue() -> null *)
   | _ => [e]
   end.
 
